@@ -415,6 +415,14 @@ pub fn run(out_path: &str, tier: &str) {
 			("subject-universal-astral", name_der_raw(&[vec![("2.5.4.10", 0x1c, vec![0, 1, 0xf6, 0x00, 0, 0, 0, 0x41])]]), vec![]),
 			("subject-teletex-high-octets", name_der_raw(&[vec![("2.5.4.10", 0x14, vec![0x63, 0x61, 0x66, 0xe9])]]), vec![]),
 			("subject-utf8-leading-bom", name_der_raw(&[vec![("2.5.4.10", 0x0c, vec![0xef, 0xbb, 0xbf, 0x41])]]), vec![]),
+			// a UTF8String that is not UTF-8 (Latin-1 octets under the wrong tag)
+			("subject-utf8-invalid-octets", name_der_raw(&[vec![("2.5.4.3", 0x0c, vec![0x4d, 0xfc, 0x6c, 0x6c])]]), vec![]),
+			("subject-utf8-truncated-sequence", name_der_raw(&[vec![("2.5.4.10", 0x0c, vec![0x61, 0xe2, 0x82])], vec![("2.5.4.3", 0x0c, b"x".to_vec())]]), vec![]),
+			// other attributes around the extension request: DER sorts the SET OF by encoding, so a short attribute comes before
+			// the request and a long one after it
+			("short-attribute-before-extension-request", subj.clone(), vec![enc_seq(&[enc_oid("1.2.840.113549.1.9.7"), enc_set(&[enc_tlv(0x0c, b"pw")])]), ext_req_attr(&[enc_seq(&[san1.clone(), ku1.clone()])])]),
+			("long-attribute-after-extension-request", subj.clone(), vec![enc_seq(&[enc_oid("1.2.840.113549.1.9.2"), enc_set(&[enc_tlv(0x0c, &[b'n'; 110])])]), ext_req_attr(&[enc_seq(&[san1.clone(), ku1.clone()])])]),
+			("attributes-on-both-sides-of-extension-request", subj.clone(), vec![enc_seq(&[enc_oid("1.2.840.113549.1.9.7"), enc_set(&[enc_tlv(0x0c, b"pw")])]), enc_seq(&[enc_oid("1.2.840.113549.1.9.2"), enc_set(&[enc_tlv(0x0c, &[b'n'; 110])])]), ext_req_attr(&[enc_seq(&[san1.clone(), ku1.clone()])])]),
 			("unknown-attribute", subj.clone(), vec![enc_seq(&[enc_oid("1.2.840.113549.1.9.7"), enc_set(&[enc_tlv(0x0c, b"pw")])])]),
 			("critical-san", subj.clone(), vec![ext_req_attr(&[enc_seq(&[ext("2.5.29.17", true, &san_dns(&["c.d"]))])])]),
 			("empty-extension-request", subj.clone(), vec![ext_req_attr(&[enc_seq(&[])])]),
@@ -425,7 +433,7 @@ pub fn run(out_path: &str, tier: &str) {
 		];
 		for (name, s, attrs) in shapes {
 			let der = handcraft(&key, "ecdsa-sha256", &s, &attrs);
-			bases.push((json!({"origin": "handcrafted", "keyType": "p256", "sigAlg": "ecdsa-sha256", "shape": name, "expectSupported": name == "plain-handcrafted" || name == "unknown-attribute" || name == "critical-san" || name == "subject-bmp-plain" || name == "subject-universal-plain"}), der));
+			bases.push((json!({"origin": "handcrafted", "keyType": "p256", "sigAlg": "ecdsa-sha256", "shape": name, "expectSupported": name == "plain-handcrafted" || name == "unknown-attribute" || name == "critical-san" || name == "subject-bmp-plain" || name == "subject-universal-plain" || name.contains("attribute")}), der));
 		}
 	}
 
